@@ -984,9 +984,9 @@ def _threads(ctx: Ctx, rng: SimRng) -> None:
             strategy["d"] = 1 + ch.draw(3, "pct.d")
         else:
             strategy["p"] = ch.pick([(1, 50), (1, 10), (3, 10)], "p")
-        dedupe = ch.weighted([("op", 6), ("frame", 3)] + ([("none", 1)] if ctx.cfg.get("opcode") else []), "dedupe")
+        dedupe = ch.weighted([("op", 6), ("frame", 3)] + ([("none", 2)] if ctx.cfg.get("every_line") else []), "dedupe")
         sched = SimThreads(
-            ctx, strategy, opcode=bool(ctx.cfg.get("opcode")) and dedupe == "none", dedupe=dedupe,
+            ctx, strategy, dedupe=dedupe,
             max_steps=int(ctx.cfg.get("max_steps", 400000)),
         )
         SimLock.sched = sched
@@ -1091,7 +1091,7 @@ def _plans(tier: str) -> list[Any]:
         Plan("state", {"part": "signer"}, share=1.0, chunk=40, label="state/signer"),
         Plan("state", {"part": "wallet"}, share=1.5, chunk=20, label="state/wallet"),
         Plan("state", {"part": "indep"}, share=2.0, chunk=10, label="state/indep"),
-        Plan("state", {"part": "threads", "opcode": tier == "thorough"}, share=4.0, chunk=10, label="state/threads"),
+        Plan("state", {"part": "threads", "every_line": tier == "thorough"}, share=4.0, chunk=10, label="state/threads"),
     ]
 
 
@@ -1107,7 +1107,7 @@ CHECKS = {
             "switch trace; non-trivial = at least one fault/perturbation fired or >= 2 context switches."
         ),
         "assumptions": [
-            "pre-emption only at first-visit line (thorough: bytecode) boundaries of btclib frames; C calls are atomic (GIL)",
+            "pre-emption only at first-visit line (thorough: every line event) boundaries of btclib frames; C calls are atomic (GIL); bytecode-level events are not used (CPython 3.12.1 crashes with f_trace_opcodes in generator expressions)",
             "races between two threads on one secnonce bytearray or one wallet object are not asserted (not stated by the property)",
         ],
     },
